@@ -295,8 +295,8 @@ def task(wid, seed, params):
                 base_opts = [o for i, o in enumerate(opts) if o != '-t' and (i == 0 or opts[i - 1] != '-t')]
                 alts.append(('rerun', opts, 'plain'))
                 alts.append(('-t %d' % ch.pick((1, 2, 3, 8, 64)), base_opts + ['-t', str(ch.pick((1, 2, 3, 8, 64)))], 'plain'))
-                if oi % 2 == 0:
-                    v = ch.pick(('nopthread', 'nogetopt', 'nolibgen', 'nostrdup'))
+                # every other translator build configuration, for every option set (a translation costs milliseconds)
+                for v in ('nopthread', 'nogetopt', 'nolibgen', 'nostrdup'):
                     alts.append((v, base_opts if v == 'nopthread' else opts, v))
                 for what, o2, variant in alts:
                     d2, tr2 = translate_to(wb, o2, variant, refb)
@@ -429,6 +429,15 @@ def replay(rp):
         for t in (1, 2, 3, 8, 64, 2, 3):
             o2 = [o for i, o in enumerate(rp['options']) if o != '-t' and (i == 0 or rp['options'][i - 1] != '-t')] + ['-t', str(t)]
             d2, tr2 = translate_to(wb, o2, 'plain', refb)
+            try:
+                if tr2.rc != 0 or read_outputs(d2) != files:
+                    return True
+            finally:
+                cexec.rm(d2)
+        # ... and with the other translator build configurations
+        base_opts = [o for i, o in enumerate(rp['options']) if o != '-t' and (i == 0 or rp['options'][i - 1] != '-t')]
+        for v in ('nopthread', 'nogetopt', 'nolibgen', 'nostrdup'):
+            d2, tr2 = translate_to(wb, base_opts if v == 'nopthread' else rp['options'], v, refb)
             try:
                 if tr2.rc != 0 or read_outputs(d2) != files:
                     return True
